@@ -2,6 +2,7 @@
 import random
 from props.gossip_common import *
 
+from props import bulk_probe
 ID = "C02"
 COQ_TARGETS = ["Run/Run_Gossip.vo"]
 META = {
@@ -225,11 +226,17 @@ def run(ctx):
                               "histories_with_stale_entry_for_purged_key": sum(1 for _, y in st if y), "disagreements": len(dis), "seed": ctx["seed"]},
            "monitor": {"histories": len(cases), "failures": len(mon), "failures_known": len([1 for _, f in mon if f["sig"] in kf])}}
     cov["glue_probes"] = gcov
+    # bulk synchronisation over the datagram path (hundreds to thousands of entries; monitor only)
+    bcov, bv = bulk_probe.run(ctx, ID)
+    cov["bulk_pull"] = bcov
+    violations += bv
     return {"coverage": cov, "violations": violations, "known": known}
 
 
 def replay(path, wd):
     obj = json.load(open(path))
+    if obj.get("kind") == "bulk":
+        return bulk_probe.replay(obj, wd)
     case = obj["case"]
     binary = build_harness("pkg/gossip", dirs=["gossip"])
     if replay_glue(obj, binary, wd):
